@@ -74,7 +74,7 @@ func c02Units(tier string) []Unit {
 				isSizes := len(pl.name) > 5 && pl.name[:5] == "sizes"
 				if ci >= 6 {
 					// the constant sets: the delete-heavy plan and the basic one-reopen plan, first clock class
-					if clock != 0 || !(pl.name == "d4+1reopen/deletes" || (pl.name == "d3+1reopen" && ci == 6)) {
+					if clock != 0 || !((pl.name == "d4+1reopen/deletes" && (ci == 7 || tier == "thorough")) || (pl.name == "d3+1reopen" && ci == 6)) {
 						continue
 					}
 				} else if pl.name == "d4+1reopen/deletes" {
